@@ -5,6 +5,8 @@ import (
 	_ "verif/harness/prop/c01"
 	_ "verif/harness/prop/c02"
 	_ "verif/harness/prop/c03"
+	_ "verif/harness/prop/c04"
+	_ "verif/harness/prop/c05"
 	_ "verif/harness/prop/c06"
 	_ "verif/harness/prop/c07"
 	_ "verif/harness/prop/c08"
@@ -15,7 +17,9 @@ import (
 	_ "verif/harness/prop/c13"
 	_ "verif/harness/prop/c14"
 	_ "verif/harness/prop/c15"
+	_ "verif/harness/prop/c16"
 	_ "verif/harness/prop/c17"
 	_ "verif/harness/prop/c18"
+	_ "verif/harness/prop/c19"
 	_ "verif/harness/prop/c20"
 )
